@@ -41,7 +41,7 @@ func c03Filter() seccomp.Filter {
 	c03filterOnce.Do(func() {
 		c03filter = mustFilter(
 			[]string{"read", "write", "mmap", "mprotect", "munmap", "exit", "exit_group", "clone", "fork", "vfork", "wait4", "nanosleep", "getpid", "gettid", "chdir", "close", "restart_syscall"},
-			[]string{"execve", "mkdirat", "unlinkat", "openat", "renameat2", "linkat", "access"},
+			[]string{"execve", "mkdirat", "unlinkat", "openat", "renameat2", "linkat", "access", "getppid"},
 			libseccomp.ActionKill)
 	})
 	return c03filter
@@ -153,7 +153,7 @@ func init() {
 		spec := &mc.Spec{
 			Level: "exploration",
 			Rule: "seam A (ptracer.Tracer, scripted Handle): every program of ≤ maxOps operations over {mkdirat, unlinkat, openat(O_CREAT) (traced), getpid (allowed), getuid (neither: the filter kills)} × issuer ∈ {main, forked child, vforked child, thread, grandchild} " +
-				"× every map traced-op → {allow, ban, kill} × tracee state {ordinary, %ds/%es = 0x28 (loadable by the program, refused by PTRACE_SETREGS), path strings in a write-only page (readable for the kernel, not for process_vm_readv)}; seam B (runner/ptrace.Runner, scripted path policy): mkdirat / renameat2 / linkat with every per-path verdict pair. Oracle: reference interpreter of the script (return values from the program's own log, side effects read from the file system after the run). " +
+				"× every map traced-op → {allow, ban, kill} × tracee state {ordinary, %ds/%es = 0x28 (loadable by the program, refused by PTRACE_SETREGS), path strings in a write-only page (readable for the kernel, not for process_vm_readv)}; seam B (runner/ptrace.Runner, scripted policy): mkdirat / unlinkat / renameat2 / linkat with every per-path verdict pair and a traced call judged by name (getppid) with every verdict, × the runner's debug switches ShowDetails × Unsafe (Unsafe softens a kill reached by name into a ban and nothing else; ShowDetails changes nothing). Oracle: reference interpreter of the script (return values from the program's own log, side effects read from the file system after the run). " +
 				"non-trivial: at least one traced op with a non-allow verdict or a non-main issuer; distinct = (program, issuer, verdict map, observation)",
 			Bound:       map[string]any{"max_ops": maxOps},
 			Assumptions: []string{"programs are sequential (a parent waits for its sub-script), so 'later operation' is well defined", "a filter kill inside a child process ends only that child; the Disallowed Syscall verdict is required only when the main thread group is killed"},
@@ -407,10 +407,15 @@ func (p *c03pathPolicy) act(path string) ptracer.TraceAction {
 func (p *c03pathPolicy) CheckRead(s string) ptracer.TraceAction    { return p.act(s) }
 func (p *c03pathPolicy) CheckWrite(s string) ptracer.TraceAction   { return p.act(s) }
 func (p *c03pathPolicy) CheckStat(s string) ptracer.TraceAction    { return p.act(s) }
-func (p *c03pathPolicy) CheckSyscall(s string) ptracer.TraceAction { return ptracer.TraceBan }
+func (p *c03pathPolicy) CheckSyscall(s string) ptracer.TraceAction {
+	if _, ok := p.verdict["syscall:"+s]; ok {
+		return p.act("syscall:" + s)
+	}
+	return ptracer.TraceBan
+}
 
 func c03policy(x *mc.X) {
-	op := x.Pick("op", "mkdirat", "renameat2", "linkat", "unlinkat")
+	op := x.Pick("op", "mkdirat", "renameat2", "linkat", "unlinkat", "getppid(traced, judged by name)")
 	issuer := x.Pick("issuer", "main", "fork", "thread")
 	v1 := x.Choose(3, "verdict(first path)")
 	v2 := 0
@@ -422,6 +427,11 @@ func c03policy(x *mc.X) {
 	// garbage in the upper half the call is the same call for the kernel but has no name for the runner, which must
 	// then refuse it (kill) whatever the path policy would have said
 	hibits := x.Bool("garbage-in-upper-half-of-syscall-number")
+	// the runner's two debug switches: ShowDetails only prints; Unsafe softens a kill verdict that was reached by NAME
+	// (not by path) into a ban. Every combination must leave every other verdict as it is.
+	showDetails := x.Bool("ShowDetails")
+	unsafeFlag := x.Bool("Unsafe")
+	byName := strings.HasPrefix(op, "getppid")
 	x.Note("seam", "runner/ptrace policy")
 	x.Note("verdicts", fmt.Sprint(vNames[v1], "/", vNames[v2]))
 	if x.Dry() {
@@ -443,6 +453,8 @@ func c03policy(x *mc.X) {
 	case "linkat":
 		os.WriteFile(src, []byte("x"), 0644)
 		line = "X 265 -100 $0 -100 $1 0\n"
+	default:
+		line = "X 110\n"
 	}
 	if hibits {
 		nr := 0
@@ -460,6 +472,17 @@ func c03policy(x *mc.X) {
 	}
 	script += "S " + filepath.Join(dir, "tail") + "\nX 258 -100 $2 0755\nQ 0\n"
 	pol := &c03pathPolicy{verdict: map[string]int{src: v1, dst: v2}}
+	if byName {
+		pol.verdict["syscall:getppid"] = v1
+	}
+	if showDetails {
+		// the runner prints every step to the process's standard error: keep that out of the check's own output
+		if nf, err := os.OpenFile("/dev/null", os.O_WRONLY, 0); err == nil {
+			old := os.Stderr
+			os.Stderr = nf
+			defer func() { os.Stderr = old; nf.Close() }()
+		}
+	}
 	sf, _ := os.CreateTemp(dir, "script")
 	sf.WriteString(script)
 	sf.Seek(0, 0)
@@ -473,6 +496,8 @@ func c03policy(x *mc.X) {
 		r.Files = []uintptr{sf.Fd(), lf.Fd(), devnull()}
 		r.Seccomp = c03Filter()
 		r.Handler = pol
+		r.ShowDetails = showDetails
+		r.Unsafe = unsafeFlag
 	})
 	rets := readLog(logPath)
 	opLine := 0
@@ -487,6 +512,9 @@ func c03policy(x *mc.X) {
 		comb = vKill
 	} else if v1 == vBan || v2 == vBan {
 		comb = vBan
+	}
+	if byName && unsafeFlag && comb == vKill {
+		comb = vBan // the documented softening
 	}
 	if hibits {
 		comb = vKill
@@ -506,19 +534,22 @@ func c03policy(x *mc.X) {
 	case "linkat":
 		_, e2 := os.Stat(dst)
 		effect = e2 == nil
+	default:
+		// no side effect to look at: the call "took effect" when the program received a process id
+		effect = logged && ret > 0
 	}
-	cs := fmt.Sprintf("%s by %s with path verdicts %s/%s", op, issuer, vNames[v1], vNames[v2])
+	cs := fmt.Sprintf("%s by %s with verdicts %s/%s (ShowDetails %v, Unsafe %v)", op, issuer, vNames[v1], vNames[v2], showDetails, unsafeFlag)
 	if hibits {
 		cs += " (syscall number with garbage in the upper half of the register)"
 	}
 	x.Note("result", fmt.Sprintf("%s ret=%d logged=%v effect=%v asked=%v", statusName(res.Status), ret, logged, effect, len(pol.asked)))
 	if comb != vAllow || issuer != "main" {
-		x.Distinct(fmt.Sprint(op, issuer, v1, v2, hibits, res.Status, ret, logged, effect))
+		x.Distinct(fmt.Sprint(op, issuer, v1, v2, hibits, showDetails, unsafeFlag, res.Status, ret > 0, logged, effect))
 	}
 	x.Outcome(fmt.Sprintf("policy:%s:%s", vNames[comb], statusName(res.Status)))
 	switch comb {
 	case vAllow:
-		if !effect || !logged || ret != 0 {
+		if !effect || !logged || (ret != 0 && !byName) {
 			x.Failf("C03/policy/allowed-op-disturbed", "%s: effect=%v ret=%d logged=%v status=%v", cs, effect, ret, logged, res.Status)
 		}
 		if res.Status != runner.StatusNormal {
